@@ -141,7 +141,7 @@ where
         match (do
             let v ← stackGet (s.sp - 1)
             match v with
-            | .box a => do match (← heapGet a) with | .box v => pure v | _ => panic "model: bad box"
+            | .box a => do match (← heapGet a) with | .box v => pure v | _ => unsupported "model: bad box"
             | v => pure v : M V).run.run s with
         | (.ok v, s) => (.value v, s)
         | (.error (.panic m), s) => (.goPanic m, s)
